@@ -23,12 +23,9 @@ ASSUMPTIONS = [
     'equal indices only come from different pads (the Model uses sorted lists)',
 ]
 OPEN_STATEMENTS = [
-    'bk_exact / bk_majorana_exact are proved under the decidable hypothesis "exact regime" (no non-zero value deleted '
+    'bk_exact / bk_majorana_exact / tree_exact are proved under the decidable hypothesis "exact regime" (no non-zero value deleted '
     'by the |v| < EQ_TOLERANCE test of +=), evaluated by the Model on every generated input (distribution key '
-    'theorem-hypothesis exact-regime); the term-level theorems bk_term_exact / bk_majorana_term_exact are unconditional',
-    'bravyi_kitaev_tree (FenwickTree variant): NO theorem (the interval-forest facts for the recursive bisection are '
-    'not proved); covered by exact correspondence of the tree sets and of every ladder image for every n <= 24/40, and '
-    'by the Spec oracles c05.sets_check (tiling / storing sets of the bisection encoding) and c05.bk_check',
+    'theorem-hypothesis exact-regime); the term-level theorems bk_term_exact / bk_majorana_term_exact / tree_term_exact are unconditional',
     'srl_sound (_seeley_richard_love(i,j,c,n) denotes c a_i^dagger a_j under the encoding, cases 0-10): NOT proved; '
     'only srl_cases_exhaustive (no pair i,j < n falls through the elif chain) is a theorem; soundness is covered by '
     'exact correspondence for ALL i,j < n <= 14/24 (case histogram in the evidence) and the Spec oracle for n <= 8',
@@ -290,7 +287,7 @@ def stream_random(ctx):
             n = size if nq is None else nq
             b.add(variant + '(FermionOperator)', case, jQ, {'op': mop, 'n': n, 'A': jA},
                   oracle(variant, 'fermion', n, ['op', jA], jQ) if n <= 9 else None,
-                  regime_req={'op': 'c05.fermion_ok', 'n': n, 'A': jA} if variant == 'bk' else None)
+                  regime_req={'op': 'c05.fermion_ok' if variant == 'bk' else 'c05.tree_ok', 'n': n, 'A': jA})
             if modes_of(jQ) > n:
                 st.violate('result acts on more than n_qubits qubits', case, {'terms': jQ})
             if variant == 'bk' and prev is not None and prev[2] == n and len(A.terms) * len(prev[0].terms) <= 9:
